@@ -91,6 +91,9 @@ pub fn tie_case(text: &str, strict: bool) -> Option<(String, String)> {
     if toks.iter().any(|t| t.0 == 3) {
         return None; // /include is outside this model (C16)
     }
+    if toks.iter().any(|t| t.0 == 0 && matches!(&text[t.1..t.2], "A2ML" | "IF_DATA")) {
+        return None; // A2ML / IF_DATA are `special` types: a parameter of the generic parser model (C18)
+    }
     let mut floats: Vec<String> = vec![];
     let mut seen = std::collections::HashSet::new();
     for (k, s, e, _) in &toks {
